@@ -47,8 +47,9 @@ ASSUMPTIONS = [
     'note is padded like the others, so the notes tile the extent exactly; no trailing filler after the last note',
     'GNU ABI tag descsz == 16; gold version string without NUL; every property (incl. the last) is padded to 4/8, '
     'STACK_SIZE data is one native word, feature words named by the library are 4 bytes, NO_COPY_ON_PROTECTED has no data; '
-    'unknown property types carry arbitrary data of 0..24 bytes and are expected as raw bytes (int also accepted if the '
-    'library names the type)',
+    'property types that no registry assigns (generic/user ranges) carry arbitrary data of 0..24 bytes, unnamed types inside '
+    'the ranges reserved for 4-byte words carry exactly 4 bytes; both are expected as int type + raw bytes (an integer '
+    'datum is also accepted if the library does name the type)',
     'NT_PRPSINFO/NT_FILE descriptors are generated only with owner "CORE" in ET_CORE files and have exactly the kernel '
     'layout; ELF32 NT_PRPSINFO only for machines whose uid width is known from the kernel headers (x32/ILP32 ABIs excluded)',
     'a note whose type number collides with a decoded kind but whose owner differs (gABI: name AND type identify a '
@@ -72,9 +73,39 @@ PR_STACK, PR_NOCOPY = 1, 2
 PR_WORDS = {0xc0000002: 'GNU_PROPERTY_X86_FEATURE_1_AND', 0xc0008002: 'GNU_PROPERTY_X86_ISA_1_NEEDED',
             0xc0010001: 'GNU_PROPERTY_X86_FEATURE_2_USED', 0xc0010002: 'GNU_PROPERTY_X86_ISA_1_USED',
             0xc0000000: 'GNU_PROPERTY_AARCH64_FEATURE_1_AND'}
-PR_UNKNOWN_POOL = [3, 4, 0x7f, 0x100, 0xffff, 0x12345678, 0xafffffff, 0xb0000000, 0xb0008000, 0xb0008001,
-                   0xc0000001, 0xc0000003, 0xc0008000, 0xc0008001, 0xc0010000, 0xdfffffff, 0xe0000000, 0xe0001234,
-                   0xfffffffe, 0xffffffff]
+X86_WORDS = (0xc0000002, 0xc0008002, 0xc0010001, 0xc0010002)
+M_X86, M_AARCH64, M_RISCV = (3, 62), (183,), (243,)
+
+
+def word_status(machine, t):
+    """Processor-specific property types mean something only on their own processor.
+    'strict': the type is defined for this machine -> must be named as in elf.h and decoded as a 32-bit integer;
+    'word':   RISC-V 0xc0000000 (GNU_PROPERTY_RISCV_FEATURE_1_AND, same value and width as the AArch64 one; absent from
+              the vendored elf.h) -> 4-byte word, name-or-int, integer or raw bytes accepted;
+    'loose':  the number is not assigned for this machine -> any self-consistent report is accepted."""
+    if t in X86_WORDS and machine in M_X86:
+        return 'strict'
+    if t == 0xc0000000 and machine in M_AARCH64:
+        return 'strict'
+    if t == 0xc0000000 and machine in M_RISCV:
+        return 'word'
+    return 'loose'
+
+
+def words_for(machine):
+    if machine in M_X86:
+        return list(X86_WORDS)
+    if machine in M_AARCH64 + M_RISCV:
+        return [0xc0000000]
+    return sorted(PR_WORDS)
+
+
+# property types no registry assigns (generic range below GNU_PROPERTY_UINT32_AND_LO, user range): arbitrary data
+PR_UNKNOWN_POOL = [3, 4, 0x7f, 0x100, 0xffff, 0x12345678, 0xafffffff, 0xe0000000, 0xe0001234, 0xfffffffe, 0xffffffff]
+# types inside ranges that the linux-abi / x86 psABI reserve for 4-byte words (UINT32_AND/OR, x86 UINT32_*), not named
+# by the library: generated with a 4-byte datum only
+PR_UNKNOWN_W4_POOL = [0xb0000000, 0xb0000001, 0xb0007fff, 0xb0008000, 0xb0008001, 0xc0000003, 0xc0008000, 0xc0008001,
+                      0xc0010000]
 
 # e_machine values (glibc elf.h; EM_CYGNUS_FRV 0x5441 from binutils include/elf/common.h)
 UG16 = (3, 40, 4, 22, 42, 2, 89, 76, 88, 0x5441)     # i386 arm m68k s390 sh sparc mn10300 cris m32r frv
@@ -403,7 +434,11 @@ def check_desc(ctx, case, x, got, where):
             elif k == 'nocopy':
                 data_exp, dsz, must = b'', 0, {PR_NOCOPY: 'GNU_PROPERTY_NO_COPY_ON_PROTECTED'}
             elif k == 'word':
-                data_exp, dsz, must = p['v'], 4, {p['t']: PR_WORDS[p['t']]}
+                data_exp, dsz = p['v'], 4
+                must = {p['t']: PR_WORDS[p['t']]} if word_status(machine, p['t']) == 'strict' else {}
+                ctx.count('prop.word.' + word_status(machine, p['t']))
+                if must:
+                    ctx.count('prop.word.strict.%#x' % p['t'])
             else:
                 data_exp, dsz, must = bytes(p['d']), len(p['d']), {}
             ok, gt = _get(ctx, g, 'pr_type', 'desc|prop', case, w)
@@ -418,6 +453,9 @@ def check_desc(ctx, case, x, got, where):
                 if not good and k == 'unk' and named and dsz in (4, 8) and _isint(gd):
                     # the library knows a name for a type this oracle treats as unknown: integer decoding accepted
                     good = gd == struct.unpack(E(le) + ('I' if dsz == 4 else 'Q'), data_exp)[0]
+                if not good and k == 'word' and word_status(machine, p['t']) != 'strict' and isinstance(gd, bytes):
+                    # number not assigned for this e_machine: the 4 raw bytes are an equally faithful report
+                    good = gd == struct.pack(E(le) + 'I', data_exp)
                 if not good:
                     ctx.fail('desc|prop|pr_data|%s' % k, '%s: type %#x datasz %d encoded %r decoded %r' % (w, p['t'], dsz, data_exp, gd), case)
         return
@@ -700,18 +738,20 @@ def gen_psinfo(ch):
             'pgrp': ch.word(32), 'sid': ch.word(32), 'fname': s(16), 'psargs': s(80)}
 
 
-def gen_prop(ch, cls):
+def gen_prop(ch, cls, machine):
     k = ch.choice(['stack', 'nocopy', 'word', 'word', 'unk', 'unk'])
     if k == 'stack':
         return {'pk': k, 't': PR_STACK, 'v': ch.word(cls)}
     if k == 'nocopy':
         return {'pk': k, 't': PR_NOCOPY}
     if k == 'word':
-        return {'pk': k, 't': ch.choice(sorted(PR_WORDS)), 'v': ch.word(32)}
+        return {'pk': k, 't': ch.choice(words_for(machine)), 'v': ch.word(32)}
+    if ch.int(0, 3) == 0:
+        return {'pk': k, 't': ch.choice(PR_UNKNOWN_W4_POOL), 'd': ch.bytes(4)}
     return {'pk': k, 't': ch.choice(PR_UNKNOWN_POOL), 'd': ch.bytes(ch.choice([0, 1, 3, 4, 5, 8, 9, 12, 16, ch.int(0, 24)]))}
 
 
-def gen_note(ch, cls, core, allow_collision):
+def gen_note(ch, cls, core, allow_collision, machine):
     k = ch.int(0, 19)
     if k <= 8:
         kind = 'raw'
@@ -719,6 +759,8 @@ def gen_note(ch, cls, core, allow_collision):
         kind = ch.choice(['psinfo', 'file', 'file'] if core else ['abi', 'bid', 'gold', 'prop', 'prop'])
     else:   # the other context's kinds: they must come back as plain bytes
         kind = ch.choice(['abi', 'bid', 'gold', 'prop'] if core else ['psinfo', 'file'])
+    if kind == 'psinfo' and ugid_bits(cls, machine) is None:
+        kind = 'file'      # uid width of this ELF32 machine is not known to the oracle
     if kind == 'raw':
         nk = ch.int(0, 9)
         if nk == 0:
@@ -741,7 +783,7 @@ def gen_note(ch, cls, core, allow_collision):
     if kind == 'gold':
         return {'k': kind, 's': ch.choice([b'gold 1.16', b'gold 1.11', b'', nonul(ch, 0, 30)])}
     if kind == 'prop':
-        return {'k': kind, 'props': [gen_prop(ch, cls) for _ in range(ch.choice([0, 1, 1, 2, 3, ch.int(0, 8)]))]}
+        return {'k': kind, 'props': [gen_prop(ch, cls, machine) for _ in range(ch.choice([0, 1, 1, 2, 3, ch.int(0, 8)]))]}
     if kind == 'psinfo':
         return {'k': kind, 'f': gen_psinfo(ch)}
     if kind == 'file':
@@ -782,18 +824,15 @@ def build_case(ch, tier):
     le = ch.bool()
     core = ch.bool()
     e_type = ET_CORE if core else ch.choice([0, 1, 2, 3, 2, 3, 5, 0xfe00, 0xff00, 0xffff])
+    if ch.int(0, 3) == 0:
+        machine = ch.choice(M_ANY)                       # incl. ELF32 machines without a known uid width, unknown codes
+    else:
+        machine = ch.choice((UG16 + UG32 + UG32 + (3, 3, 40)) if cls == 32 else (M64 + (62, 62, 183)))
     nn = ch.choice([0, 1, 1, 2, 2, 3, 4, ch.int(0, 12)])
     allow_collision = core and ch.int(0, 7) == 0
-    notes = [gen_note(ch, cls, core, allow_collision) for _ in range(nn)]
+    notes = [gen_note(ch, cls, core, allow_collision, machine) for _ in range(nn)]
     if ch.int(0, 3) == 0:
         notes.append({'k': 'raw', 'name': None, 'type': ch.choice(TYPE_POOL), 'desc': b''})
-    has_ps = any(n['k'] == 'psinfo' for n in notes)
-    if cls == 32 and has_ps:
-        machine = ch.choice(UG16 + UG32 + UG32)
-    elif cls == 64 and has_ps:
-        machine = ch.choice(M64)
-    else:
-        machine = ch.choice(M_ANY + UG16[:3])
     case = {'cls': cls, 'le': le, 'e_type': e_type, 'e_machine': machine, 'view': ch.choice(['sec', 'seg', 'both', 'both']),
             'notes': notes, 'stabs': gen_stabs(ch) if ch.int(0, 3) == 0 else None, 'lay': gen_layout(ch, cls)}
     finish_psinfo(ch, case)
@@ -829,7 +868,8 @@ class FastHyp(HypChooser):
         if s is None:
             s = self._words[bits] = st.one_of(
                 st.sampled_from([0, 1, (1 << bits) - 1, 1 << (bits - 1), (1 << (bits - 1)) - 1]),
-                st.integers(0, 255), st.integers(0, 0xffff), st.integers(0, (1 << bits) - 1))
+                st.integers(0, min(255, (1 << bits) - 1)), st.integers(0, min(0xffff, (1 << bits) - 1)),
+                st.integers(0, (1 << bits) - 1))
         return self.draw(s)
 
 
@@ -872,6 +912,14 @@ def sweep(tier):
                 notes = notes[rot:] + notes[:rot]
                 cases.append(_mk(cls, le, core, view, notes, lay={'gap4': namesz % 3, 'at_end': namesz % 2 == 0, 'tail': 0,
                                                                   'p_vaddr': 0x77, 'p_memsz': namesz, 'addr': 0x400000 + 4 * namesz}))
+            # every owner of the pool (empty, latin-1, long, near-misses of 'GNU') x a rotating type; a collision-free extent
+            notes = []
+            for k, name in enumerate(NAME_POOL + [bytes(range(1, 40)), bytes(range(0x80, 0xa7))]):
+                t = TYPE_POOL[(k + ci + vi) % len(TYPE_POOL)]
+                if treatment(core, name, t, 'raw') != 'bytes':
+                    t += 0x20
+                notes.append({'k': 'raw', 'name': name, 'type': t, 'desc': bytes(range(k % 7))})
+            cases.append(_mk(cls, le, core, view, notes))
             # extents around the header-only note and the empty extent
             X = {'k': 'raw', 'name': b'X', 'type': 0x101, 'desc': b'\x01\x02\x03'}
             for k, notes in enumerate(([], [HO()], [X, HO(7)], [HO(), X], [HO(1), HO(2)], [X], [X, X, HO(0xffffffff)])):
@@ -889,6 +937,7 @@ def sweep(tier):
         props += [{'pk': 'nocopy', 't': 2}]
         props += [{'pk': 'word', 't': t, 'v': v} for t in sorted(PR_WORDS) for v in (0, 3, 0x80000001, 0xffffffff)]
         props += [{'pk': 'unk', 't': t, 'd': bytes(range(0x30, 0x30 + (i * 5) % 13))} for i, t in enumerate(PR_UNKNOWN_POOL)]
+        props += [{'pk': 'unk', 't': t, 'd': bytes((i + 1, 0, 0x80, 0xff))} for i, t in enumerate(PR_UNKNOWN_W4_POOL)]
         props += [{'pk': 'unk', 't': 0xe0000001, 'd': bytes(range(1, n + 1))} for n in range(0, 18)]
         gnu += [{'k': 'prop', 'props': []}]
         gnu += [{'k': 'prop', 'props': [dict(p)]} for p in props]
@@ -897,12 +946,25 @@ def sweep(tier):
                 gnu.append({'k': 'prop', 'props': [dict(ch.choice(props)) for _ in range(n)]})
         gnu.append({'k': 'prop', 'props': [dict(p) for p in props]})
         for i in range(0, len(gnu), 6):
-            chunk = [dict(n) for n in gnu[i:i + 6]]
+            mach = (62, 183, 243, 3, 8)[(i // 6) % 5]
+            chunk = []
+            for n in gnu[i:i + 6]:
+                n = dict(n)
+                if n['k'] == 'prop':       # processor-specific words follow the machine of this file
+                    n['props'] = [dict(p, t=(p['t'] if p['t'] in words_for(mach) else words_for(mach)[j % len(words_for(mach))]))
+                                  if p['pk'] == 'word' else dict(p) for j, p in enumerate(n['props'])]
+                chunk.append(n)
             if (i // 6) % 3 == 0:
                 chunk.append(HO(5))
-            cases.append(_mk(cls, le, core, views[(ci + i // 6) % 3], chunk, machine=(62, 183, 243, 3)[(i // 6) % 4],
+            cases.append(_mk(cls, le, core, views[(ci + i // 6) % 3], chunk, machine=mach,
                              e_type=None if core else (0, 1, 2, 3, 0xfe00, 0xffff)[(i // 6) % 6],
                              lay={'gap4': (i // 6) % 3, 'at_end': (i // 6) % 2 == 0, 'tail': 0, 'p_vaddr': 1, 'p_memsz': 0, 'addr': 0x2000}))
+        # every processor-specific feature word on its own processor (strict), on RISC-V, and on a foreign one (loose)
+        for mi, mach in enumerate((62, 3, 183, 243, 8)):
+            ws = words_for(mach)
+            plist = [{'pk': 'word', 't': t, 'v': (1, 0x80000000, 0xffffffff, 3, 0)[(k + mi) % 5]} for k, t in enumerate(ws)]
+            cases.append(_mk(cls, le, core, views[(ci + mi) % 3], [{'k': 'prop', 'props': plist}, {'k': 'prop', 'props': plist[::-1] + plist}],
+                             machine=mach, lay={'gap4': mi % 2, 'at_end': mi % 2 == 0, 'tail': 0, 'p_vaddr': 0, 'p_memsz': 0, 'addr': 0x3000}))
         # core kinds, every machine of both uid-width sets (ELF32) / the 64-bit list (ELF64)
         machines = (UG16 + UG32) if cls == 32 else M64
         for mi, mach in enumerate(machines):
@@ -947,6 +1009,7 @@ def floors(ctx):
              'namesz=0', 'name.non-ascii', 'final.header-only', 'prop.multi', 'prop.empty', 'prop.stack', 'prop.nocopy', 'prop.word',
              'prop.unk', 'psinfo.elf32.ugid16', 'psinfo.elf32.ugid32', 'psinfo.elf64.ugid32', 'file.maps.0', 'file.maps.2',
              'stabs.sections', 'stabs.records', 'stabs.empty', 'layout.extent-at-eof']
+    need += ['prop.word.strict.%#x' % t for t in sorted(PR_WORDS)] + ['prop.word.word', 'prop.word.loose']
     need += ['namesz%%4=%d' % r for r in range(4)] + ['descsz%%4=%d' % r for r in range(4)]
     return ['no case with ' + k for k in need if c[k] == 0]
 
